@@ -1,6 +1,7 @@
 """C01 — dense direct solvers: structure of partial pivoting, elimination and substitution."""
 from .pdb import strip, walk, loc, ancestors
 from .terms import Ctx, num, show, lin_add, lin_sub
+from .common import value_before, index_sequence
 from .common import (P, F, SIZE, effects, callee_path, call_args, rule_index_kinds, find_argmax, ordered_cmps_on_elements,
                      reachable_fns, elem_ref, loop_var_ranges, is_abs_term, in_macro, same_dim, _resolve)
 from .guards import facts
@@ -135,7 +136,8 @@ def check_gauss(rep, pdb, key):
             m1 = mv[2] if mv[0] == "op" and mv[1] == "*" else None
             m2 = xv[2] if xv[0] == "op" and xv[1] == "*" else None
             mdef = _resolve(ctx, m1) if m1 else None
-            mult_ok = m1 is not None and m1 == m2 and mdef == ("op", "/", ("idx", P(0), ("tup", i, k)), ("idx", P(0), ("tup", k, k)))
+            mdef2 = _resolve(ctx, m2) if m2 else None
+            mult_ok = m1 is not None and (m1 == m2 or mdef == mdef2) and mdef == ("op", "/", ("idx", P(0), ("tup", i, k)), ("idx", P(0), ("tup", k, k)))
             rows_ok = mu.index == ("tup", i, j) and mv[3] == ("idx", P(0), ("tup", k, j)) and xu.index == i and xv[3] == ("idx", P(1), k)
             rng_ok = ranges.get(k, (None, None))[:2] == (num(0), lin_add(ROWS, num(-1))) and ranges.get(i, (None, None))[:2] == (lin_add(k, num(1)), ROWS) and \
                 ranges.get(j, (None, None))[:2] == (k, ROWS)
@@ -190,7 +192,8 @@ def run(rep, pdb, tier):
             inn = for_range(ctx, su.loops[1]) if len(su.loops) > 1 else None
             k = su.index
             # k = rows - n, n in 2..rows+1 : k runs rows-2 down to 0
-            okk = o is not None and o[1] == num(2) and o[2] == lin_add(ROWS, num(1)) and not o[3] and k == lin_sub(ROWS, o[0])
+            seq = index_sequence(o, k)
+            okk = seq is not None and seq == (lin_add(ROWS, num(-2)), num(0), -1)
             okj = inn is not None and inn[1] == lin_add(k, num(1)) and inn[2] == ROWS and not inn[3]
             j = inn[0] if inn else None
             oks = su.target == P(1) and su.value == ("op", "*", ("idx", P(0), ("tup", k, j)), ("idx", P(1), j))
@@ -264,22 +267,20 @@ def run(rep, pdb, tier):
         ctx = Ctx.for_fn(pdb, sl)
         effs = effects(pdb, ctx)
         lucalls = [n for n in walk(sl["body"]) if n.get("k") == "MethodCall" and callee_path(n) == "%s::lu_decomp_in_place" % M]
-        perm_assign = [e for e in effs if e.kind == "assign" and e.value[0] == "op" and e.value[1] == "*"]
         fwd = [e for e in effs if e.kind == "upd" and e.op == "-=" and e.loops]
         bsc = [n for n in walk(sl["body"]) if n.get("k") == "MethodCall" and callee_path(n) == "%s::backsolve" % M]
-        okp, det = len(lucalls) == 1 and len(perm_assign) == 1 and len(fwd) == 1 and len(bsc) == 1, ""
+        okp, det = len(lucalls) == 1 and len(fwd) == 1 and len(bsc) == 1, ""
         if okp:
-            pa = perm_assign[0]
-            x = pa.target
+            x = fwd[0].target
             lut = ctx.term(lucalls[0])
-            pv = pa.value
-            perm_is = pv[2] == ("field", lut, "1") or _resolve(ctx, pv[2]) == ("field", lut, "1")
-            xb = ctx.binds.get(x[1]) if x[0] == "var" else None
-            x_init = xb is not None and xb.init is not None and ctx.term(xb.init) == P(1)
-            before = _pos(pa.node) < _pos(fwd[0].node) < _pos(bsc[0]) and _pos(lucalls[0]) < _pos(pa.node)
-            okp = perm_is and pv[3] == x and x_init and before
-            rep.add("permute-rhs/solve_lu", "the permutation returned by the factorisation is multiplied into x (= b.clone()) before any substitution sweep", okp, pa.node,
-                    "x = P*x with P from lu_decomp_in_place=%s x starts as b.clone()=%s order factorise < permute < forward < backsolve=%s" % (perm_is, x_init, before))
+            # the value of x when the forward sweep starts: P * b, however the statements are arranged
+            pv = value_before(ctx, x, fwd[0].loops[0])
+            perm_is = pv is not None and pv[0] == "op" and pv[1] == "*" and (pv[2] == ("field", lut, "1") or _resolve(ctx, pv[2]) == ("field", lut, "1"))
+            x_init = perm_is and pv[3] == P(1)
+            before = _pos(lucalls[0]) < _pos(fwd[0].loops[0]) and _pos(fwd[0].node) < _pos(bsc[0])
+            okp = perm_is and x_init and before
+            rep.add("permute-rhs/solve_lu", "the permutation returned by the factorisation is multiplied into a copy of b before any substitution sweep", okp, fwd[0].loops[0],
+                    "x = P*b with P from lu_decomp_in_place=%s (value of x at the sweep: %s) order factorise < forward < backsolve=%s" % (perm_is, show(pv, ctx) if pv else None, before))
             fw = fwd[0]
             o = for_range(ctx, fw.loops[0])
             inn = for_range(ctx, fw.loops[1]) if len(fw.loops) > 1 else None
@@ -293,7 +294,7 @@ def run(rep, pdb, tier):
             rep.add("length/solve_lu", "the returned vector is the permuted copy of b swept in place", okl, sl["body"], "", where=loc(sl["body"]))
         else:
             rep.bad("permute-rhs/solve_lu", "solve_lu = factorise, permute, forward sweep, backsolve", sl["body"],
-                    "lu calls=%d permutations=%d forward updates=%d backsolve calls=%d" % (len(lucalls), len(perm_assign), len(fwd), len(bsc)), where=loc(sl["body"]))
+                    "lu calls=%d forward updates=%d backsolve calls=%d" % (len(lucalls), len(fwd), len(bsc)), where=loc(sl["body"]))
     rep.floor("index-kinds/", 30)
     rep.floor("magnitude/", 2)
     rep.floor("argmax/", 2)
